@@ -2718,7 +2718,11 @@ class ArrayBuilder(Iterable, Sized):
             )
             typestrs = ak._util.typestrs(self._arraybuilder._behavior)
             typestr = repr(
-                str(ak.types.ArrayType(snapshot._layout.type(typestrs), len(self)))
+                str(
+                    ak.types.ArrayType(
+                        snapshot._layout.type(typestrs), len(self._arraybuilder)
+                    )
+                )
             )
             if len(typestr) > limit_type:
                 typestr = typestr[: (limit_type - 4)] + "..." + typestr[-1]
@@ -2799,10 +2803,10 @@ class ArrayBuilder(Iterable, Sized):
 
         def __init__(self, arraybuilder, name):
             super(ArrayBuilder.Record, self).__init__(arraybuilder)
-            self._name = name
+            self._recordname = name
 
         def __enter__(self):
-            self._arraybuilder.begin_record(name=self._name)
+            self._arraybuilder.begin_record(name=self._recordname)
 
         def __exit__(self, type, value, traceback):
             self._arraybuilder.end_record()
